@@ -10,6 +10,7 @@
 //! `run` prints `B <unit>` before and `R <json>` after every unit so that a worker
 //! that dies (stack overflow, abort) names the unit that killed it.
 
+mod asynchost;
 mod atoms;
 mod checks;
 mod corpus;
